@@ -39,6 +39,8 @@ type result struct {
 	Writes     []write           `json:"writes"`
 	Priorities map[string]int    `json:"priorities"`
 	Classes    map[string]string `json:"classes"`
+	// Strings: the string literals of the lexer and of the parser (their error messages among them)
+	Strings map[string][]string `json:"strings"`
 }
 
 func main() {
@@ -53,7 +55,7 @@ func main() {
 		os.Exit(2)
 	}
 	root := args[0]
-	res := result{Priorities: map[string]int{}, Classes: map[string]string{}}
+	res := result{Priorities: map[string]int{}, Classes: map[string]string{}, Strings: map[string][]string{}}
 	fset := token.NewFileSet()
 	dirs := map[string][]string{}
 	filepath.Walk(root, func(p string, info os.FileInfo, err error) error {
@@ -93,6 +95,26 @@ func main() {
 			}
 			files = append(files, af)
 			names = append(names, f)
+			if relf, _ := filepath.Rel(root, f); relf == "internal/lexer/lexer.go" || relf == "internal/parser/parser.go" {
+				key := "lexer"
+				if strings.HasSuffix(relf, "parser.go") {
+					key = "parser"
+				}
+				seenLit := map[string]bool{}
+				ast.Inspect(af, func(n ast.Node) bool {
+					if _, isImport := n.(*ast.ImportSpec); isImport {
+						return false
+					}
+					if bl, ok := n.(*ast.BasicLit); ok && bl.Kind == token.STRING {
+						if v, err := strconv.Unquote(bl.Value); err == nil && !seenLit[v] {
+							seenLit[v] = true
+							res.Strings[key] = append(res.Strings[key], v)
+						}
+					}
+					return true
+				})
+				sort.Strings(res.Strings[key])
+			}
 		}
 		vars := map[string]bool{}
 		for i, af := range files {
@@ -324,4 +346,22 @@ func printCoq(res result) {
 		fmt.Printf("  (%q, %q)%s\n", w.Name, w.Func, sep)
 	}
 	fmt.Println("]%string.")
+	fmt.Println()
+	fmt.Println("(** string literals of internal/lexer/lexer.go and internal/parser/parser.go (error messages among them) *)")
+	for _, key := range []string{"lexer", "parser"} {
+		fmt.Printf("Definition g_strings_%s : list String.string := [\n", key)
+		for i, v := range res.Strings[key] {
+			sep := ";"
+			if i == len(res.Strings[key])-1 {
+				sep = ""
+			}
+			fmt.Printf("  %s%s\n", coqString(v), sep)
+		}
+		fmt.Println("]%string.")
+	}
+}
+
+// coqString renders a Go string as a Coq string literal (only printable ASCII is expected here)
+func coqString(v string) string {
+	return "\"" + strings.ReplaceAll(v, "\"", "\"\"") + "\""
 }
